@@ -45,7 +45,7 @@ def load_local_known(c):
 
 def consts(kind="kinesis", ninit=2, shards=5, runners=(1, 2), maxcur=0, maxlen=40, log=False, starts=3, **dev):
     b = dict(Kind=kind, NInit=ninit, MaxShards=shards, Runners="@{" + ", ".join(map(str, runners)) + "}", MaxCur=maxcur,
-             MaxLen=maxlen, LogOn=log, MaxStarts=starts, ActOn=False)
+             MaxLen=maxlen, LogOn=log, MaxStarts=starts, ActOn=False, MaxDepth=1000)
     b.update(OFF)
     b.update(dev)
     return b
@@ -68,13 +68,14 @@ def tlc_start(jobs, workers, timeout, parallel):
     """jobs: (constants, invariants, expectation, label) or ((...), own timeout). Starts a few TLC instances side by
     side (they run while the replays are executed); tlc_collect adds the results."""
     def one(j):
-        to, extra = timeout, ()
+        extra, constraint = (), None
         if len(j) == 2:
-            j, to = j
-            extra = ("-continue",)
+            j = j[0]
+            extra, constraint = ("-continue",), "DepthOK"
         cc, invs, expect, label = j
-        return j, vlib.run_tlc("Splitter", cfg=dict(constants=cc, invariants=invs), workers=workers, timeout=to,
-                               name="Splitter-x", extra_args=extra)
+        # one worker for the exports: which path TLC reports to a bad state is then reproducible
+        return j, vlib.run_tlc("Splitter", cfg=dict(constants=cc, invariants=invs, constraint=constraint),
+                               workers=1 if constraint else workers, timeout=timeout, name="Splitter-x", extra_args=extra)
     ex = ThreadPoolExecutor(max_workers=parallel)
     return ex, [ex.submit(one, j) for j in jobs]
 
@@ -145,17 +146,20 @@ def cex_traces(out):
     return traces
 
 
-def adversarial_job(switch, shards, runners, timeout):
-    """exhaustive run with the Pre_* switch on, the last action recorded in `act`, -continue: TLC prints every
-    counterexample of the bounded graph, shortest first, until the time limit"""
+def adversarial_job(switch, shards, runners, depth):
+    """exhaustive run to a bounded depth with the Pre_* switch on, the last action recorded in `act`, -continue:
+    TLC prints every counterexample of the bounded graph"""
     cc = consts(ninit=2, shards=shards, runners=runners, **{switch: True})
     cc["ActOn"] = True
-    return (cc, ["DesignOK"], "adversarial:" + switch, "Splitter counterexamples of %s (-continue, %ds)" % (brief(cc), timeout)), timeout
+    cc["MaxDepth"] = depth
+    return (cc, ["DesignOK"], "adversarial:" + switch, "Splitter counterexamples of %s to depth %d" % (brief(cc), depth)), "export"
 
 
 def adversarial(c, switch, cc, r, keep, seed):
     """schedules only the unrepaired code admits (a Pre_* switch on): the real code must keep the property on them"""
-    c.add_tlc(r, "Splitter counterexample export " + brief(cc), must_hold=False)
+    c.add_tlc(r, "Splitter counterexample export to depth %d %s" % (cc["MaxDepth"], brief(cc)), must_hold=False)
+    if r.error or "Model checking completed" not in r.out:
+        raise vlib.MachineryError("counterexample export did not complete: %s\n%s" % (r.error, r.out[-1500:]))
     behs = []
     for steps, bad in cex_traces(r.out):
         if late_finish(steps) or not any(b.get("dev") == switch for b in bad):
@@ -163,6 +167,7 @@ def adversarial(c, switch, cc, r, keep, seed):
         if any(steps[:len(o)] == o for o in behs):
             continue
         behs.append(steps)
+    behs.sort(key=lambda b: json.dumps(b))
     random.Random(seed).shuffle(behs)
     behs = sorted(behs[:keep], key=len)
     if not behs:
@@ -197,7 +202,7 @@ def assign_half(c):
         d1, c1 = consts(ninit=1, shards=5, runners=(1, 2, 3)), consts(ninit=2, shards=5, runners=(1, 2), **CODE)
         jobs = [(d1, ["DesignOK"] + INVS, None, "Splitter design " + brief(d1)),
                 (c1, ["Attributed"] + INVS, None, "Splitter code " + brief(c1))]
-        tl, wk, par = 200, 6, 2
+        tl, wk, par = 400, 6, 2
     else:
         jobs = []
         for n in (1, 2, 3):
@@ -213,9 +218,13 @@ def assign_half(c):
     for sw in ("Dev_StateAtCompletion", "Pre_LastRegress", "Pre_ForgetWithheld"):
         cc = consts(ninit=2, shards=6 if sw == "Pre_ForgetWithheld" else 4, runners=(1,), **{sw: True})
         jobs.append((cc, ["DesignOK"], "DesignOK", "Splitter non-vacuity " + brief(cc)))
-    jobs.append(adversarial_job("Pre_LastRegress", 4, (1, 2), 8 if quick else 40))
-    jobs.append(adversarial_job("Pre_LastRegress", 7, (1,), 12 if quick else 60))
-    jobs.append(adversarial_job("Pre_ForgetWithheld", 6, (1, 2), 14 if quick else 90))
+    jobs.append(adversarial_job("Pre_LastRegress", 4, (1, 2), 11))
+    jobs.append(adversarial_job("Pre_LastRegress", 7, (1,), 10))
+    jobs.append(adversarial_job("Pre_ForgetWithheld", 6, (1,), 12))
+    if not quick:
+        jobs.append(adversarial_job("Pre_ForgetWithheld", 6, (1, 2), 12))
+        jobs.append(adversarial_job("Pre_LastRegress", 5, (1, 2, 3), 12))
+        jobs.append(adversarial_job("Pre_ForgetWithheld", 7, (1, 2), 13))
     started = tlc_start(jobs, wk, tl, par)
     c.exhaustive = True
 
@@ -224,15 +233,15 @@ def assign_half(c):
         gens = [(consts(ninit=2, shards=7, runners=(1, 2, 3), maxcur=2, maxlen=40, log=True, starts=3, **CODE), 160),
                 (consts(ninit=1, shards=6, runners=(1, 2), maxcur=2, maxlen=36, log=True, starts=3, **CODE), 120),
                 (consts(ninit=3, shards=8, runners=(1, 2, 3), maxcur=1, maxlen=50, log=True, starts=4, **CODE), 120),
-                (consts("embedded", ninit=3, shards=3, runners=(1, 2, 3), maxcur=3, maxlen=16, log=True, starts=3, **CODE), 100),
-                (consts("httpapi", ninit=1, shards=1, runners=(1, 2, 3), maxcur=4, maxlen=14, log=True, starts=3, **CODE), 60)]
+                (consts("embedded", ninit=3, shards=3, runners=(1, 2, 3), maxcur=4, maxlen=26, log=True, starts=3, **CODE), 100),
+                (consts("httpapi", ninit=1, shards=1, runners=(1, 2, 3), maxcur=4, maxlen=18, log=True, starts=3, **CODE), 60)]
         adv = 40
     else:
         gens = [(consts(ninit=n, shards=sh, runners=rs, maxcur=2, maxlen=ml, log=True, starts=st, **CODE), 500)
                 for n, sh, rs, ml, st in ((1, 5, (1, 2, 3), 40, 3), (1, 7, (2, 3), 50, 4), (2, 6, (1, 2), 44, 3), (2, 8, (1, 2, 3), 60, 4),
                                           (2, 9, (3,), 70, 5), (3, 7, (1, 2, 3), 50, 3), (3, 9, (1, 2, 3), 70, 5), (2, 7, (1,), 50, 6))]
-        gens += [(consts("embedded", ninit=n, shards=n, runners=(1, 2, 3), maxcur=3, maxlen=20, log=True, starts=4, **CODE), 300) for n in (1, 2, 3, 4)]
-        gens += [(consts("httpapi", ninit=1, shards=1, runners=(1, 2, 3), maxcur=5, maxlen=18, log=True, starts=4, **CODE), 200)]
+        gens += [(consts("embedded", ninit=n, shards=n, runners=(1, 2, 3), maxcur=4, maxlen=30, log=True, starts=4, **CODE), 300) for n in (1, 2, 3, 4)]
+        gens += [(consts("httpapi", ninit=1, shards=1, runners=(1, 2, 3), maxcur=5, maxlen=24, log=True, starts=4, **CODE), 200)]
         adv = 400
     first = None
     for i, (cc, num) in enumerate(gens):
